@@ -4,942 +4,9 @@ import "osmcheck/core"
 
 // c20Benign: behaviour-preserving rewrites of the anchored code (different classes); every rule must stay silent.
 func c20Benign() []core.Mutant {
-	return []core.Mutant{
-		{Name: "extract-throttle-helper-inverted-nil-test", File: "osmapi/datasource.go",
-			Find: `func (ds *Datasource) getFromAPI(ctx context.Context, url string, item interface{}) error {
-	client := ds.Client
-	if client == nil {
-		client = DefaultDatasource.Client
-	}
-
-	if client == nil {
-		client = http.DefaultClient
-	}
-
-	if ds.Limiter != nil {
-		err := ds.Limiter.Wait(ctx)
-		if err != nil {
-			return err
-		}
-	}
-`,
-			Replace: `func (ds *Datasource) throttle(ctx context.Context) error {
-	if ds.Limiter == nil {
-		return nil
-	}
-	return ds.Limiter.Wait(ctx)
-}
-
-func (ds *Datasource) getFromAPI(ctx context.Context, url string, item interface{}) error {
-	client := ds.Client
-	if client == nil {
-		client = DefaultDatasource.Client
-	}
-
-	if client == nil {
-		client = http.DefaultClient
-	}
-
-	if err := ds.throttle(ctx); err != nil {
-		return err
-	}
-`},
-		{Name: "status-chain-to-tagless-switch-with-init", File: "osmapi/datasource.go",
-			Find: `	if resp.StatusCode == http.StatusNotFound {
-		return &NotFoundError{URL: url}
-	}
-
-	if resp.StatusCode == http.StatusForbidden {
-		return &ForbiddenError{URL: url}
-	}
-
-	if resp.StatusCode == http.StatusGone {
-		return &GoneError{URL: url}
-	}
-
-	if resp.StatusCode == http.StatusRequestURITooLong {
-		return &RequestURITooLongError{URL: url}
-	}
-
-	if resp.StatusCode != http.StatusOK {
-		return &UnexpectedStatusCodeError{
-			Code: resp.StatusCode,
-			URL:  url,
-		}
-	}
-
-	return xml.NewDecoder(resp.Body).Decode(item)
-`,
-			Replace: `	switch code := resp.StatusCode; {
-	case code == http.StatusOK:
-		return xml.NewDecoder(resp.Body).Decode(item)
-	case code == http.StatusNotFound:
-		return &NotFoundError{URL: url}
-	case code == http.StatusGone:
-		return &GoneError{URL: url}
-	case code == http.StatusForbidden:
-		return &ForbiddenError{URL: url}
-	case http.StatusRequestURITooLong == code:
-		return &RequestURITooLongError{URL: url}
-	}
-	return &UnexpectedStatusCodeError{Code: resp.StatusCode, URL: url}
-`},
-		{Name: "notfound-inverted-nesting", File: "osmapi/datasource.go",
-			Find:    "\tif err == nil {\n\t\treturn false\n\t}\n\n\t_, ok := err.(*NotFoundError)\n\treturn ok\n",
-			Replace: "\tif err != nil {\n\t\tif _, ok := err.(*NotFoundError); ok {\n\t\t\treturn true\n\t\t}\n\t}\n\treturn false\n"},
-		{Name: "client-selection-nested-if-init", File: "osmapi/datasource.go",
-			Find:    "\tclient := ds.Client\n\tif client == nil {\n\t\tclient = DefaultDatasource.Client\n\t}\n\n\tif client == nil {\n\t\tclient = http.DefaultClient\n\t}\n",
-			Replace: "\tclient := ds.Client\n\tif client == nil {\n\t\tif client = DefaultDatasource.Client; client == nil {\n\t\t\tclient = http.DefaultClient\n\t\t}\n\t}\n"},
-		{Name: "limit-split-guards-named-constants", File: "osmapi/options.go",
-			Find:    "\tif o.n < 1 || 10000 < o.n {\n\t\treturn nil, errors.New(\"osmapi: limit must be between 1 and 10000\")\n\t}\n",
-			Replace: "\tconst lo, hi = 1, 10000\n\tif o.n < lo {\n\t\treturn nil, errors.New(\"osmapi: limit must be between 1 and 10000\")\n\t}\n\tif !(o.n <= hi) {\n\t\treturn nil, errors.New(\"osmapi: limit must be between 1 and 10000\")\n\t}\n"},
-		{Name: "featureoptions-no-shortcut-renamed-loop-locals", File: "osmapi/options.go",
-			Find:    "\tif len(opts) == 0 {\n\t\treturn \"\", nil\n\t}\n\n\tparams := make([]string, 0, len(opts))\n\n\tvar err error\n\tfor _, o := range opts {\n\t\tparams, err = o.applyFeature(params)\n\t\tif err != nil {\n\t\t\treturn \"\", err\n\t\t}\n\t}\n",
-			Replace: "\tvar params []string\n\tfor _, opt := range opts {\n\t\tnext, err := opt.applyFeature(params)\n\t\tif err != nil {\n\t\t\treturn \"\", err\n\t\t}\n\t\tparams = next\n\t}\n"},
-		{Name: "user-inline-base-url-reordered-statements", File: "osmapi/user.go",
-			Find:    "\turl := fmt.Sprintf(\"%s/user/%d\", ds.baseURL(), id)\n\n\to := &osm.OSM{}\n",
-			Replace: "\to := &osm.OSM{}\n\tbase := ds.BaseURL\n\tif base == \"\" {\n\t\tbase = BaseURL\n\t}\n\turl := fmt.Sprintf(\"%s/user/%d\", base, id)\n"},
-		{Name: "node-single-guard-eq-form-value-alias", File: "osmapi/node.go",
-			Find:    "\tif l := len(o.Nodes); l != 1 {\n\t\treturn nil, fmt.Errorf(\"wrong number of nodes, expected 1, got %v\", l)\n\t}\n\n\treturn o.Nodes[0], nil\n",
-			Replace: "\tnodes := o.Nodes\n\tif len(nodes) == 1 {\n\t\treturn nodes[0], nil\n\t}\n\n\treturn nil, fmt.Errorf(\"wrong number of nodes, expected 1, got %v\", len(nodes))\n"},
-		{Name: "ways-csv-renamed-len-guard-named-separator", File: "osmapi/way.go",
-			Find:    "\tdata := make([]byte, 0, 11*len(ids))\n\tfor i, id := range ids {\n\t\tif i != 0 {\n\t\t\tdata = append(data, byte(','))\n\t\t}\n\t\tdata = strconv.AppendInt(data, int64(id), 10)\n\t}\n\turl := ds.baseURL() + \"/ways?ways=\" + string(data)\n",
-			Replace: "\tconst comma = ','\n\tbuf := make([]byte, 0, 11*len(ids))\n\tfor _, wayID := range ids {\n\t\tif len(buf) > 0 {\n\t\t\tbuf = append(buf, comma)\n\t\t}\n\t\tbuf = strconv.AppendInt(buf, int64(wayID), 10)\n\t}\n\turl := ds.baseURL() + \"/ways?ways=\" + string(buf)\n"},
-		{Name: "wayfull-named-format-separate-error-test", File: "osmapi/way.go",
-			Find:    "\turl := fmt.Sprintf(\"%s/way/%d/full?%s\", ds.baseURL(), id, params)\n\n\to := &osm.OSM{}\n\tif err := ds.getFromAPI(ctx, url, &o); err != nil {\n\t\treturn nil, err\n\t}\n",
-			Replace: "\tconst format = \"%s/way/%d/full?%s\"\n\turl := fmt.Sprintf(format, ds.baseURL(), id, params)\n\n\to := &osm.OSM{}\n\terr = ds.getFromAPI(ctx, url, &o)\n\tif err != nil {\n\t\treturn nil, err\n\t}\n"},
-		{Name: "map-wrapper-through-locals", File: "osmapi/map.go",
-			Find:    "\treturn DefaultDatasource.Map(ctx, bounds, opts...)\n",
-			Replace: "\tds := DefaultDatasource\n\tosmData, err := ds.Map(ctx, bounds, opts...)\n\treturn osmData, err\n"},
-		{Name: "relations-optional-suffix-as-switch", File: "osmapi/relation.go",
-			Find:    "\turl := ds.baseURL() + \"/relations?relations=\" + string(data)\n\tif len(params) > 0 {\n\t\turl += \"&\" + params\n\t}\n",
-			Replace: "\tvar url string\n\tswitch {\n\tcase params == \"\":\n\t\turl = ds.baseURL() + \"/relations?relations=\" + string(data)\n\tdefault:\n\t\turl = ds.baseURL() + \"/relations?relations=\" + string(data) + \"&\" + params\n\t}\n"},
-		{Name: "changeset-helper-moved-before-its-caller", File: "osmapi/changeset.go",
-			Find: `// ChangesetWithDiscussion returns a changeset and its discussion from the osm rest api.
-func (ds *Datasource) ChangesetWithDiscussion(ctx context.Context, id osm.ChangesetID) (*osm.Changeset, error) {
-	url := fmt.Sprintf("%s/changeset/%d?include_discussion=true", ds.baseURL(), id)
-	return ds.getChangeset(ctx, url)
-}
-
-func (ds *Datasource) getChangeset(ctx context.Context, url string) (*osm.Changeset, error) {
-	css := &osm.OSM{}
-	if err := ds.getFromAPI(ctx, url, &css); err != nil {
-		return nil, err
-	}
-
-	if l := len(css.Changesets); l != 1 {
-		return nil, fmt.Errorf("wrong number of changesets, expected 1, got %v", l)
-	}
-
-	return css.Changesets[0], nil
-}
-`,
-			Replace: `func (ds *Datasource) fetchOneChangeset(ctx context.Context, url string) (*osm.Changeset, error) {
-	doc := &osm.OSM{}
-	if err := ds.getFromAPI(ctx, url, &doc); err != nil {
-		return nil, err
-	}
-
-	if l := len(doc.Changesets); l != 1 {
-		return nil, fmt.Errorf("wrong number of changesets, expected 1, got %v", l)
-	}
-
-	return doc.Changesets[0], nil
-}
-
-func (ds *Datasource) getChangeset(ctx context.Context, url string) (*osm.Changeset, error) {
-	return ds.fetchOneChangeset(ctx, url)
-}
-
-// ChangesetWithDiscussion returns a changeset and its discussion from the osm rest api.
-func (ds *Datasource) ChangesetWithDiscussion(ctx context.Context, id osm.ChangesetID) (*osm.Changeset, error) {
-	const discussion = "?include_discussion=true"
-	url := fmt.Sprintf("%s/changeset/%d", ds.baseURL(), id) + discussion
-	return ds.getChangeset(ctx, url)
-}
-`},
-		{Name: "at-option-hoisted-timestamp-named-layout", File: "osmapi/options.go",
-			Find:    "\treturn append(p, \"at=\"+o.t.UTC().Format(\"2006-01-02T15:04:05Z\")), nil\n",
-			Replace: "\tconst layout = \"2006-01-02T15:04:05Z\"\n\tutc := o.t.UTC()\n\tparam := fmt.Sprintf(\"at=%s\", utc.Format(layout))\n\tp = append(p, param)\n\treturn p, nil\n"},
-		{Name: "nodehistory-through-generic-url-and-fetch-helpers", File: "osmapi/node.go",
-			Find: `	url := fmt.Sprintf("%s/node/%d/history", ds.baseURL(), id)
-
-	o := &osm.OSM{}
-	if err := ds.getFromAPI(ctx, url, &o); err != nil {
-		return nil, err
-	}
-
-	return o.Nodes, nil
-}
-`,
-			Replace: `	nodes, err := ds.fetchNodes(ctx, ds.elementURL("node", int64(id), "history"))
-	switch {
-	case err != nil:
-		return nil, err
-	}
-	return nodes, nil
-}
-
-func (ds *Datasource) elementURL(kind string, id int64, sub string) string {
-	u := ds.baseURL() + "/" + kind + "/" + strconv.FormatInt(id, 10)
-	if sub != "" {
-		u = u + "/" + sub
-	}
-	return u
-}
-
-func (ds *Datasource) fetchNodes(ctx context.Context, u string) (osm.Nodes, error) {
-	doc := new(osm.OSM)
-	if err := ds.getFromAPI(ctx, u, &doc); err == nil {
-		return doc.Nodes, nil
-	} else {
-		return nil, err
-	}
-}
-`},
-		{Name: "notes-list-literal-index-loop", File: "osmapi/note.go",
-			Find: `	params := make([]string, 0, 1+len(opts))
-	params = append(params, fmt.Sprintf("bbox=%f,%f,%f,%f",
-		bounds.MinLon, bounds.MinLat,
-		bounds.MaxLon, bounds.MaxLat))
-
-	var err error
-	for _, o := range opts {
-		params, err = o.applyNotes(params)
-		if err != nil {
-			return nil, err
-		}
-	}
-`,
-			Replace: `	params := []string{fmt.Sprintf("bbox=%f,%f,%f,%f",
-		bounds.MinLon, bounds.MinLat,
-		bounds.MaxLon, bounds.MaxLat)}
-
-	for i := 0; i < len(opts); i++ {
-		var err error
-		if params, err = opts[i].applyNotes(params); err != nil {
-			return nil, err
-		}
-	}
-`},
-		{Name: "limit-accepting-branch-first-local-copy", File: "osmapi/options.go",
-			Find: `	if o.n < 1 || 10000 < o.n {
-		return nil, errors.New("osmapi: limit must be between 1 and 10000")
-	}
-	return append(p, fmt.Sprintf("limit=%d", o.n)), nil
-`,
-			Replace: `	if n := o.n; n >= 1 && n <= 10000 {
-		return append(p, fmt.Sprintf("limit=%v", n)), nil
-	}
-	return nil, errors.New("osmapi: limit must be between 1 and 10000")
-`},
-		{Name: "extract-send-helper-newrequestwithcontext-deferred-closure", File: "osmapi/datasource.go",
-			Find: `	req, err := http.NewRequest("GET", url, nil)
-	if err != nil {
-		return err
-	}
-
-	resp, err := client.Do(req.WithContext(ctx))
-	if err != nil {
-		return err
-	}
-	defer resp.Body.Close()
-
-	if resp.StatusCode == http.StatusNotFound {
-		return &NotFoundError{URL: url}
-	}
-
-	if resp.StatusCode == http.StatusForbidden {
-		return &ForbiddenError{URL: url}
-	}
-
-	if resp.StatusCode == http.StatusGone {
-		return &GoneError{URL: url}
-	}
-
-	if resp.StatusCode == http.StatusRequestURITooLong {
-		return &RequestURITooLongError{URL: url}
-	}
-
-	if resp.StatusCode != http.StatusOK {
-		return &UnexpectedStatusCodeError{
-			Code: resp.StatusCode,
-			URL:  url,
-		}
-	}
-
-	return xml.NewDecoder(resp.Body).Decode(item)
-}
-
-`,
-			Replace: `	resp, err := send(ctx, client, url)
-	if err != nil {
-		return err
-	}
-	defer func() { resp.Body.Close() }()
-
-	if resp.StatusCode == http.StatusNotFound {
-		return &NotFoundError{URL: url}
-	}
-
-	if resp.StatusCode == http.StatusForbidden {
-		return &ForbiddenError{URL: url}
-	}
-
-	if resp.StatusCode == http.StatusGone {
-		return &GoneError{URL: url}
-	}
-
-	if resp.StatusCode == http.StatusRequestURITooLong {
-		return &RequestURITooLongError{URL: url}
-	}
-
-	if resp.StatusCode != http.StatusOK {
-		return &UnexpectedStatusCodeError{
-			Code: resp.StatusCode,
-			URL:  url,
-		}
-	}
-
-	return xml.NewDecoder(resp.Body).Decode(item)
-}
-
-func send(ctx context.Context, c *http.Client, u string) (*http.Response, error) {
-	req, err := http.NewRequestWithContext(ctx, http.MethodGet, u, nil)
-	if err != nil {
-		return nil, err
-	}
-	return c.Do(req)
-}
-
-`},
-		{Name: "relations-ids-through-helper-taking-a-closure", File: "osmapi/relation.go",
-			Find: `	data := make([]byte, 0, 11*len(ids))
-	for i, id := range ids {
-		if i != 0 {
-			data = append(data, byte(','))
-		}
-		data = strconv.AppendInt(data, int64(id), 10)
-	}
-	url := ds.baseURL() + "/relations?relations=" + string(data)
-	if len(params) > 0 {
-		url += "&" + params
-	}
-
-	o := &osm.OSM{}
-	if err := ds.getFromAPI(ctx, url, &o); err != nil {
-		return nil, err
-	}
-
-	return o.Relations, nil
-}
-`,
-			Replace: `	idList := joinInt64(len(ids), func(i int) int64 { return int64(ids[i]) })
-	url := ds.baseURL() + "/relations?relations=" + idList
-	if len(params) > 0 {
-		url += "&" + params
-	}
-
-	o := &osm.OSM{}
-	if err := ds.getFromAPI(ctx, url, &o); err != nil {
-		return nil, err
-	}
-
-	return o.Relations, nil
-}
-
-// joinInt64 formats the n numbers at(0..n-1) in base 10, comma separated.
-func joinInt64(n int, at func(i int) int64) string {
-	out := make([]byte, 0, 11*n)
-	for i := 0; i < n; i++ {
-		if i > 0 {
-			out = append(out, ',')
-		}
-		out = strconv.AppendInt(out, at(i), 10)
-	}
-	return string(out)
-}
-`},
-		{Name: "nodes-closure-in-local-and-immediately-invoked-closure", File: "osmapi/node.go",
-			Find: `	data := make([]byte, 0, 11*len(ids))
-	for i, id := range ids {
-		if i != 0 {
-			data = append(data, byte(','))
-		}
-		data = strconv.AppendInt(data, int64(id), 10)
-	}
-`,
-			Replace: `	idAt := func(i int) int64 { return int64(ids[i]) }
-	data := func() []byte {
-		buf := make([]byte, 0, 11*len(ids))
-		for i := range ids {
-			if i != 0 {
-				buf = append(buf, ',')
-			}
-			buf = strconv.AppendInt(buf, idAt(i), 10)
-		}
-		return buf
-	}()
-`},
-		{Name: "ways-local-closure-taking-a-closure-capturing-the-buffer", File: "osmapi/way.go",
-			Find: `	data := make([]byte, 0, 11*len(ids))
-	for i, id := range ids {
-		if i != 0 {
-			data = append(data, byte(','))
-		}
-		data = strconv.AppendInt(data, int64(id), 10)
-	}
-`,
-			Replace: `	var data []byte
-	each := func(n int, visit func(i int)) {
-		for i := 0; i < n; i++ {
-			visit(i)
-		}
-	}
-	each(len(ids), func(i int) {
-		if len(data) > 0 {
-			data = append(data, ',')
-		}
-		data = strconv.AppendInt(data, int64(ids[i]), 10)
-	})
-`},
-		{Name: "notessearch-query-through-strings-builder", File: "osmapi/note.go",
-			Find: `	params = append(params, fmt.Sprintf("q=%s", url.QueryEscape(query)))
-`,
-			Replace: `	var sb strings.Builder
-	sb.WriteString("q=")
-	sb.WriteString(url.QueryEscape(query))
-	params = append(params, sb.String())
-`},
-		{Name: "user-url-through-sprint", File: "osmapi/user.go",
-			Find: `	url := fmt.Sprintf("%s/user/%d", ds.baseURL(), id)
-`,
-			Replace: `	url := fmt.Sprint(ds.baseURL(), "/user/", int64(id))
-`},
-		{Name: "nodeversion-grouped-parameters-struct", File: "osmapi/node.go",
-			Find: `	url := fmt.Sprintf("%s/node/%d/%d", ds.baseURL(), id, v)
-
-	o := &osm.OSM{}
-	if err := ds.getFromAPI(ctx, url, &o); err != nil {
-		return nil, err
-	}
-
-	if l := len(o.Nodes); l != 1 {
-		return nil, fmt.Errorf("wrong number of nodes, expected 1, got %v", l)
-	}
-
-	return o.Nodes[0], nil
-}
-`,
-			Replace: `	url := ds.versionURL(versionRef{kind: "node", id: int64(id), version: v})
-
-	o := &osm.OSM{}
-	if err := ds.getFromAPI(ctx, url, &o); err != nil {
-		return nil, err
-	}
-
-	if l := len(o.Nodes); l != 1 {
-		return nil, fmt.Errorf("wrong number of nodes, expected 1, got %v", l)
-	}
-
-	return o.Nodes[0], nil
-}
-
-type versionRef struct {
-	kind    string
-	id      int64
-	version int
-}
-
-func (ds *Datasource) versionURL(r versionRef) string {
-	return fmt.Sprintf("%s/%s/%d/%d", ds.baseURL(), r.kind, r.id, r.version)
-}
-`},
-		{Name: "notfound-as-type-switch", File: "osmapi/datasource.go",
-			Find:    "\tif err == nil {\n\t\treturn false\n\t}\n\n\t_, ok := err.(*NotFoundError)\n\treturn ok\n",
-			Replace: "\tswitch err.(type) {\n\tcase *NotFoundError:\n\t\treturn true\n\tdefault:\n\t\treturn false\n\t}\n"},
-		{Name: "status-table-map-of-constructors", File: "osmapi/datasource.go",
-			Find: `	if resp.StatusCode == http.StatusNotFound {
-		return &NotFoundError{URL: url}
-	}
-
-	if resp.StatusCode == http.StatusForbidden {
-		return &ForbiddenError{URL: url}
-	}
-
-	if resp.StatusCode == http.StatusGone {
-		return &GoneError{URL: url}
-	}
-
-	if resp.StatusCode == http.StatusRequestURITooLong {
-		return &RequestURITooLongError{URL: url}
-	}
-
-	if resp.StatusCode != http.StatusOK {
-		return &UnexpectedStatusCodeError{
-			Code: resp.StatusCode,
-			URL:  url,
-		}
-	}
-
-	return xml.NewDecoder(resp.Body).Decode(item)
-}
-`,
-			Replace: `	if resp.StatusCode == http.StatusOK {
-		return xml.NewDecoder(resp.Body).Decode(item)
-	}
-
-	if newError, ok := statusErrors[resp.StatusCode]; ok {
-		return newError(url)
-	}
-
-	return &UnexpectedStatusCodeError{Code: resp.StatusCode, URL: url}
-}
-
-var statusErrors = map[int]func(url string) error{
-	http.StatusNotFound: func(url string) error { return &NotFoundError{URL: url} },
-	http.StatusForbidden: func(url string) error { return &ForbiddenError{URL: url} },
-	http.StatusGone: func(url string) error { return &GoneError{URL: url} },
-	http.StatusRequestURITooLong: func(url string) error { return &RequestURITooLongError{URL: url} },
-}
-`},
-		{Name: "status-table-map-consulted-before-ok-test", File: "osmapi/datasource.go",
-			Find: `	if resp.StatusCode == http.StatusNotFound {
-		return &NotFoundError{URL: url}
-	}
-
-	if resp.StatusCode == http.StatusForbidden {
-		return &ForbiddenError{URL: url}
-	}
-
-	if resp.StatusCode == http.StatusGone {
-		return &GoneError{URL: url}
-	}
-
-	if resp.StatusCode == http.StatusRequestURITooLong {
-		return &RequestURITooLongError{URL: url}
-	}
-
-	if resp.StatusCode != http.StatusOK {
-		return &UnexpectedStatusCodeError{
-			Code: resp.StatusCode,
-			URL:  url,
-		}
-	}
-
-	return xml.NewDecoder(resp.Body).Decode(item)
-}
-`,
-			Replace: `	if newError, ok := statusErrors[resp.StatusCode]; ok {
-		return newError(url)
-	}
-
-	if resp.StatusCode != http.StatusOK {
-		return &UnexpectedStatusCodeError{Code: resp.StatusCode, URL: url}
-	}
-
-	return xml.NewDecoder(resp.Body).Decode(item)
-}
-
-var statusErrors = map[int]func(url string) error{
-	http.StatusNotFound: func(url string) error { return &NotFoundError{URL: url} },
-	http.StatusForbidden: func(url string) error { return &ForbiddenError{URL: url} },
-	http.StatusGone: func(url string) error { return &GoneError{URL: url} },
-	http.StatusRequestURITooLong: func(url string) error { return &RequestURITooLongError{URL: url} },
-}
-`},
-		{Name: "status-table-slice-of-code-constructor-pairs-scanned", File: "osmapi/datasource.go",
-			Find: `	if resp.StatusCode == http.StatusNotFound {
-		return &NotFoundError{URL: url}
-	}
-
-	if resp.StatusCode == http.StatusForbidden {
-		return &ForbiddenError{URL: url}
-	}
-
-	if resp.StatusCode == http.StatusGone {
-		return &GoneError{URL: url}
-	}
-
-	if resp.StatusCode == http.StatusRequestURITooLong {
-		return &RequestURITooLongError{URL: url}
-	}
-
-	if resp.StatusCode != http.StatusOK {
-		return &UnexpectedStatusCodeError{
-			Code: resp.StatusCode,
-			URL:  url,
-		}
-	}
-
-	return xml.NewDecoder(resp.Body).Decode(item)
-}
-`,
-			Replace: `	for _, e := range statusTable {
-		if e.code == resp.StatusCode {
-			return e.newError(url)
-		}
-	}
-
-	if resp.StatusCode != http.StatusOK {
-		return &UnexpectedStatusCodeError{Code: resp.StatusCode, URL: url}
-	}
-
-	return xml.NewDecoder(resp.Body).Decode(item)
-}
-
-var statusTable = []struct {
-	code     int
-	newError func(url string) error
-}{
-	{http.StatusNotFound, newNotFound},
-	{http.StatusForbidden, func(u string) error { return &ForbiddenError{URL: u} }},
-	{http.StatusGone, func(u string) error { return &GoneError{URL: u} }},
-	{http.StatusRequestURITooLong, func(u string) error { return &RequestURITooLongError{URL: u} }},
-}
-
-func newNotFound(u string) error { return &NotFoundError{URL: u} }
-`},
-		{Name: "status-table-local-array-index-loop-nil-test", File: "osmapi/datasource.go",
-			Find: `	if resp.StatusCode == http.StatusNotFound {
-		return &NotFoundError{URL: url}
-	}
-
-	if resp.StatusCode == http.StatusForbidden {
-		return &ForbiddenError{URL: url}
-	}
-
-	if resp.StatusCode == http.StatusGone {
-		return &GoneError{URL: url}
-	}
-
-	if resp.StatusCode == http.StatusRequestURITooLong {
-		return &RequestURITooLongError{URL: url}
-	}
-
-	if resp.StatusCode != http.StatusOK {
-		return &UnexpectedStatusCodeError{
-			Code: resp.StatusCode,
-			URL:  url,
-		}
-	}
-
-	return xml.NewDecoder(resp.Body).Decode(item)
-}
-`,
-			Replace: `	type entry struct {
-		code int
-		mk   func(string) error
-	}
-	table := [...]entry{
-		{code: http.StatusGone, mk: func(u string) error { return &GoneError{URL: u} }},
-		{code: http.StatusNotFound, mk: func(u string) error { return &NotFoundError{URL: u} }},
-		{code: http.StatusRequestURITooLong, mk: func(u string) error { return &RequestURITooLongError{URL: u} }},
-		{code: http.StatusForbidden, mk: func(u string) error { return &ForbiddenError{URL: u} }},
-		{code: http.StatusOK},
-	}
-	for i := 0; i < len(table); i++ {
-		if table[i].code != resp.StatusCode {
-			continue
-		}
-		if mk := table[i].mk; mk != nil {
-			return mk(url)
-		}
-		return xml.NewDecoder(resp.Body).Decode(item)
-	}
-
-	return &UnexpectedStatusCodeError{Code: resp.StatusCode, URL: url}
-}
-`},
-		{Name: "limit-bounds-in-package-level-struct", File: "osmapi/options.go",
-			Find: `func (o *limit) applyNotes(p []string) ([]string, error) {
-	if o.n < 1 || 10000 < o.n {
-		return nil, errors.New("osmapi: limit must be between 1 and 10000")
-	}
-	return append(p, fmt.Sprintf("limit=%d", o.n)), nil
-}
-`,
-			Replace: `func (o *limit) applyNotes(p []string) ([]string, error) {
-	if o.n < notesLimit.min || o.n > notesLimit.max {
-		return nil, errors.New("osmapi: limit must be between 1 and 10000")
-	}
-	return append(p, fmt.Sprintf("limit=%d", o.n)), nil
-}
-
-var notesLimit = struct{ min, max int }{min: 1, max: 10000}
-`},
-		{Name: "user-format-looked-up-in-local-map", File: "osmapi/user.go",
-			Find: `	url := fmt.Sprintf("%s/user/%d", ds.baseURL(), id)
-`,
-			Replace: `	formats := map[string]string{"user": "%s/user/%d", "note": "%s/notes/%d"}
-	url := fmt.Sprintf(formats["user"], ds.baseURL(), id)
-`},
-		{Name: "nodes-ids-presized-string-list-indexed-then-joined", File: "osmapi/node.go",
-			Find: `	"strconv"
-
-	"github.com/paulmach/osm"
-)
-
-// Node returns the latest version of the node from the osm rest api.
-// Delegates to the DefaultDatasource and uses its http.Client to make the request.
-func Node(ctx context.Context, id osm.NodeID, opts ...FeatureOption) (*osm.Node, error) {
-	return DefaultDatasource.Node(ctx, id, opts...)
-}
-
-// Node returns the latest version of the node from the osm rest api.
-func (ds *Datasource) Node(ctx context.Context, id osm.NodeID, opts ...FeatureOption) (*osm.Node, error) {
-	params, err := featureOptions(opts)
-	if err != nil {
-		return nil, err
-	}
-	url := fmt.Sprintf("%s/node/%d?%s", ds.baseURL(), id, params)
-
-	o := &osm.OSM{}
-	if err := ds.getFromAPI(ctx, url, &o); err != nil {
-		return nil, err
-	}
-
-	if l := len(o.Nodes); l != 1 {
-		return nil, fmt.Errorf("wrong number of nodes, expected 1, got %v", l)
-	}
-
-	return o.Nodes[0], nil
-}
-
-// Nodes returns the latest version of the nodes from the osm rest api.
-// Delegates to the DefaultDatasource and uses its http.Client to make the request.
-func Nodes(ctx context.Context, ids []osm.NodeID, opts ...FeatureOption) (osm.Nodes, error) {
-	return DefaultDatasource.Nodes(ctx, ids, opts...)
-}
-
-// Nodes returns the latest version of the nodes from the osm rest api.
-// Will return 404 if any node is missing.
-func (ds *Datasource) Nodes(ctx context.Context, ids []osm.NodeID, opts ...FeatureOption) (osm.Nodes, error) {
-	params, err := featureOptions(opts)
-	if err != nil {
-		return nil, err
-	}
-
-	data := make([]byte, 0, 11*len(ids))
-	for i, id := range ids {
-		if i != 0 {
-			data = append(data, byte(','))
-		}
-		data = strconv.AppendInt(data, int64(id), 10)
-	}
-	url := ds.baseURL() + "/nodes?nodes=" + string(data)
-`,
-			Replace: `	"strconv"
-	"strings"
-
-	"github.com/paulmach/osm"
-)
-
-// Node returns the latest version of the node from the osm rest api.
-// Delegates to the DefaultDatasource and uses its http.Client to make the request.
-func Node(ctx context.Context, id osm.NodeID, opts ...FeatureOption) (*osm.Node, error) {
-	return DefaultDatasource.Node(ctx, id, opts...)
-}
-
-// Node returns the latest version of the node from the osm rest api.
-func (ds *Datasource) Node(ctx context.Context, id osm.NodeID, opts ...FeatureOption) (*osm.Node, error) {
-	params, err := featureOptions(opts)
-	if err != nil {
-		return nil, err
-	}
-	url := fmt.Sprintf("%s/node/%d?%s", ds.baseURL(), id, params)
-
-	o := &osm.OSM{}
-	if err := ds.getFromAPI(ctx, url, &o); err != nil {
-		return nil, err
-	}
-
-	if l := len(o.Nodes); l != 1 {
-		return nil, fmt.Errorf("wrong number of nodes, expected 1, got %v", l)
-	}
-
-	return o.Nodes[0], nil
-}
-
-// Nodes returns the latest version of the nodes from the osm rest api.
-// Delegates to the DefaultDatasource and uses its http.Client to make the request.
-func Nodes(ctx context.Context, ids []osm.NodeID, opts ...FeatureOption) (osm.Nodes, error) {
-	return DefaultDatasource.Nodes(ctx, ids, opts...)
-}
-
-// Nodes returns the latest version of the nodes from the osm rest api.
-// Will return 404 if any node is missing.
-func (ds *Datasource) Nodes(ctx context.Context, ids []osm.NodeID, opts ...FeatureOption) (osm.Nodes, error) {
-	params, err := featureOptions(opts)
-	if err != nil {
-		return nil, err
-	}
-
-	strs := make([]string, len(ids))
-	for i := range ids {
-		strs[i] = strconv.FormatInt(int64(ids[i]), 10)
-	}
-	url := ds.baseURL() + "/nodes?nodes=" + strings.Join(strs, ",")
-`},
-		{Name: "notes-leading-parameter-presized-and-indexed", File: "osmapi/note.go",
-			Find: `	params := make([]string, 0, 1+len(opts))
-	params = append(params, fmt.Sprintf("bbox=%f,%f,%f,%f",
-		bounds.MinLon, bounds.MinLat,
-		bounds.MaxLon, bounds.MaxLat))
-`,
-			Replace: `	params := make([]string, 1, 1+len(opts))
-	params[0] = fmt.Sprintf("bbox=%f,%f,%f,%f",
-		bounds.MinLon, bounds.MinLat,
-		bounds.MaxLon, bounds.MaxLat)
-`},
-		{Name: "notessearch-query-parts-list-ranged-into-builder", File: "osmapi/note.go",
-			Find: `	params = append(params, fmt.Sprintf("q=%s", url.QueryEscape(query)))
-`,
-			Replace: `	parts := []string{"q=", url.QueryEscape(query)}
-	var sb strings.Builder
-	for _, part := range parts {
-		sb.WriteString(part)
-	}
-	params = append(params, sb.String())
-`},
-		{Name: "ways-ids-as-int64-list-variadic-join-named-result-string-accumulation", File: "osmapi/way.go",
-			Find: `	data := make([]byte, 0, 11*len(ids))
-	for i, id := range ids {
-		if i != 0 {
-			data = append(data, byte(','))
-		}
-		data = strconv.AppendInt(data, int64(id), 10)
-	}
-	url := ds.baseURL() + "/ways?ways=" + string(data)
-	if len(params) > 0 {
-		url += "&" + params
-	}
-
-	o := &osm.OSM{}
-	if err := ds.getFromAPI(ctx, url, &o); err != nil {
-		return nil, err
-	}
-
-	return o.Ways, nil
-}
-`,
-			Replace: `	raw := make([]int64, len(ids))
-	for i, id := range ids {
-		raw[i] = int64(id)
-	}
-	url := ds.baseURL() + "/ways?ways=" + joinInts(raw...)
-	if len(params) > 0 {
-		url += "&" + params
-	}
-
-	o := &osm.OSM{}
-	if err := ds.getFromAPI(ctx, url, &o); err != nil {
-		return nil, err
-	}
-
-	return o.Ways, nil
-}
-
-// joinInts formats the numbers in base 10, comma separated.
-func joinInts(nums ...int64) (list string) {
-	for _, n := range nums {
-		if list != "" {
-			list += ","
-		}
-		list += strconv.FormatInt(n, 10)
-	}
-	return
-}
-`},
-		{Name: "notes-url-through-mutable-request-struct-with-methods", File: "osmapi/note.go",
-			Find: `	params := make([]string, 0, 1+len(opts))
-	params = append(params, fmt.Sprintf("bbox=%f,%f,%f,%f",
-		bounds.MinLon, bounds.MinLat,
-		bounds.MaxLon, bounds.MaxLat))
-
-	var err error
-	for _, o := range opts {
-		params, err = o.applyNotes(params)
-		if err != nil {
-			return nil, err
-		}
-	}
-
-	url := fmt.Sprintf("%s/notes?%s", ds.baseURL(), strings.Join(params, "&"))
-
-	o := &osm.OSM{}
-	if err := ds.getFromAPI(ctx, url, &o); err != nil {
-		return nil, err
-	}
-
-	return o.Notes, nil
-}
-`,
-			Replace: `	q := &query{}
-	q.path = ds.baseURL() + "/notes"
-	q.add(fmt.Sprintf("bbox=%f,%f,%f,%f",
-		bounds.MinLon, bounds.MinLat,
-		bounds.MaxLon, bounds.MaxLat))
-
-	for _, o := range opts {
-		var err error
-		if q.parts, err = o.applyNotes(q.parts); err != nil {
-			return nil, err
-		}
-	}
-
-	url := q.String()
-
-	o := &osm.OSM{}
-	if err := ds.getFromAPI(ctx, url, &o); err != nil {
-		return nil, err
-	}
-
-	return o.Notes, nil
-}
-
-// query is a request url under construction.
-type query struct {
-	path  string
-	parts []string
-}
-
-func (q *query) add(p string) { q.parts = append(q.parts, p) }
-
-func (q query) String() (s string) {
-	s = q.path + "?"
-	s += strings.Join(q.parts, "&")
-	return
-}
-`},
-		{Name: "getchangeset-named-results-bare-returns", File: "osmapi/changeset.go",
-			Find: `func (ds *Datasource) getChangeset(ctx context.Context, url string) (*osm.Changeset, error) {
-	css := &osm.OSM{}
-	if err := ds.getFromAPI(ctx, url, &css); err != nil {
-		return nil, err
-	}
-
-	if l := len(css.Changesets); l != 1 {
-		return nil, fmt.Errorf("wrong number of changesets, expected 1, got %v", l)
-	}
-
-	return css.Changesets[0], nil
-}
-`,
-			Replace: `func (ds *Datasource) getChangeset(ctx context.Context, url string) (cs *osm.Changeset, err error) {
-	css := &osm.OSM{}
-	if err = ds.getFromAPI(ctx, url, &css); err != nil {
-		return
-	}
-
-	if l := len(css.Changesets); l != 1 {
-		err = fmt.Errorf("wrong number of changesets, expected 1, got %v", l)
-		return
-	}
-
-	cs = css.Changesets[0]
-	return
-}
-`},
-	}
+	var out []core.Mutant
+	for _, l := range [][]core.Mutant{c20Benign1(), c20Benign2(), c20Benign3(), c20Benign4()} {
+		out = append(out, l...)
+	}
+	return out
 }
